@@ -91,6 +91,24 @@ K9 = (("H", 0, 0), ("H", 2, 0), ("O", 0, 0), ("Ti", 0, 0), ("V", 0, 0), ("B", 10
       ("Lu", 0, 0), ("O", 18, -2))
 HIST_OWN = (2.33, 1.0)          # own densities of the Formula object of a history
 NODATA = (("Kr", 78, 0), ("Ru", 96, 0), ("Po", 0, 0), ("Og", 0, 0))
+# several periodic tables in one process: atoms judged in every table (customised elements, their isotopes, table-driven
+# atoms, and atoms that are the same in every table), and what the caller customises in a private table BEFORE the
+# neutron data are attached to it: ('density', symbol, value) | ('mass', symbol, factor) | ('isomass', symbol, A, factor)
+# | ('divide-all',) = the loop of doc/sphinx/guide/customizing.rst (every mass and density divided by the mass of H[1])
+TT_ATOMS = (("C", 0, 0), ("C", 13, 0), ("H", 0, 0), ("H", 2, 0), ("Si", 0, 0), ("B", 10, 0), ("Gd", 0, 0),
+            ("Gd", 157, 0), ("Lu", 0, 0))
+_TT_DENS = [("density", "C", 3.52), ("density", "H", 0.09), ("density", "Gd", 7.0), ("density", "Lu", 9.0)]
+CUSTOM = dict([
+    ("none", []),
+    ("density", _TT_DENS),
+    ("mass", [("mass", sym, 1.25) for sym in ("C", "H", "B", "Gd", "Lu")]),
+    ("density+mass", _TT_DENS + [("mass", sym, 0.8) for sym in ("C", "H", "Gd", "Lu")]),
+    ("isotope-mass", [("isomass", "C", 13, 1.1), ("isomass", "H", 2, 1.1), ("isomass", "B", 10, 1.1),
+                      ("isomass", "Gd", 157, 1.1)]),
+    ("divide-all", [("divide-all",)]),
+])
+TT_STRING = (("C", 13, 0), ("Gd", 0, 0))          # quick: atoms also given as a string parsed with table=
+TT_EDIT = (("C", 1.0, 13.5), ("H", 0.2, 1.0))     # (symbol, _density, _mass) assigned AFTER the neutron data were attached
 
 
 # ------------------------------------------------------------------ naming atoms in the three worlds
@@ -132,15 +150,23 @@ def norm_frags(frags):
     return [(c, tuple(k)) for c, k in frags]
 
 
+class _TableView(object):
+    """what lib_atom / build_compound need of the package, for a private table"""
+    def __init__(self, nsf, table):
+        self.elements = table
+        self.neutron_scattering = lambda comp, **kw: nsf.neutron_scattering(comp, table=table, **kw)
+        self.neutron_sld = lambda comp, **kw: nsf.neutron_sld(comp, table=table, **kw)
+
+
 # ------------------------------------------------------------------ the checker
 class Checker(object):
-    def __init__(self, acc, tier="quick"):
+    def __init__(self, acc, tier="quick", data=None):
         self.acc = acc
         self.tier = tier
         self.pt = load_pt()
         from periodictable import nsf
         self.nsf = nsf
-        self.data = rn.NeutronData()
+        self.data = data if data is not None else rn.NeutronData()
         self._grid_cache = {}
 
     # ---- grids
@@ -611,6 +637,182 @@ class Checker(object):
             return ret
         return None
 
+    # ---- several periodic tables in one process
+    def view(self, table, data):
+        """a Checker that names atoms in the private `table` and evaluates the reference on `data`"""
+        ck = Checker.__new__(Checker)
+        ck.acc, ck.tier, ck.nsf, ck._grid_cache = self.acc, self.tier, self.nsf, self._grid_cache
+        ck.pt = _TableView(self.nsf, table)
+        ck.data = data
+        return ck
+
+    def tables_history(self, events):
+        """Execute a history of events on the public table and up to two private tables in THIS process (the caller
+        gives every history a process of its own, in which the neutron data of the public table were never touched):
+          ('use',)            the public table's atoms are queried (and judged)
+          ('init', i, kind)   private table i is created, mass and density are attached, the caller customises
+                              densities / masses (CUSTOM[kind]), then nsf.init(table)
+          ('edit', i)         the caller assigns other _density / _mass values to two elements of table i after its
+                              neutron data were attached (those elements of that table are not judged afterwards)
+        After every event the direct-query clause is judged for the atoms TT_ATOMS of every table that has neutron
+        data - the public table with the reference data, a private table with its own (customised) masses and
+        densities: atom.neutron.scattering() / .sld() and the one-atom compound at the atom's density.
+        -> True if the whole history agrees."""
+        acc, pt, nsf = self.acc, self.pt, self.nsf
+        from periodictable.core import PeriodicTable
+        from periodictable import mass as pmass, density as pdensity
+        events = [tuple(e) for e in events]
+        if "neutron" in pt.elements.properties:
+            raise MachineryError("table history needs a process in which the public neutron data were never loaded")
+        case = dict(kind="tables", events=[list(e) for e in events])
+        lines = ["import numpy as np", "import periodictable as pt",
+                 "from periodictable import mass, density, nsf", "from periodictable.core import PeriodicTable"]
+        acc.states += 1
+        if any(e[0] == "init" for e in events):
+            acc.nontrivial += 1
+        if acc.states % 37 == 1:
+            acc.sample(case)
+        views = [("public", self, set(), "pt")]
+        private = {}
+        for step, ev in enumerate(events):
+            acc.transitions += 1
+            if ev[0] == "use":
+                after = "first-use"
+            elif ev[0] == "init":
+                i, kind = ev[1], ev[2]
+                name = "verif-c03-%d" % i
+                T = PeriodicTable(name)
+                pmass.init(T)
+                pdensity.init(T)
+                lines += ["T%d = PeriodicTable(%r); mass.init(T%d); density.init(T%d)" % (i, name, i, i)]
+                el_mass, iso_mass, dens, div = {}, {}, {}, None
+                for c in CUSTOM[kind]:
+                    if c[0] == "divide-all":
+                        div = self.data.iso_mass[(1, 1)][1]
+                        for el in T:
+                            el._mass /= div
+                            if getattr(el, "_density", None) is not None:
+                                el._density /= div
+                            for iso in el:
+                                iso._mass /= div
+                        lines += ["for el in T%d:" % i, "    el._mass /= %r" % div,
+                                  "    if getattr(el, '_density', None) is not None: el._density /= %r" % div,
+                                  "    for iso in el: iso._mass /= %r" % div]
+                    elif c[0] == "density":
+                        dens[c[1]] = c[2]
+                        T.symbol(c[1])._density = c[2]
+                        lines.append("T%d.%s._density = %r" % (i, c[1], c[2]))
+                    elif c[0] == "mass":
+                        m = self.data.mass((c[1], 0, 0)) * c[2]
+                        el_mass[c[1]] = m
+                        T.symbol(c[1])._mass = m
+                        lines.append("T%d.%s._mass = %r" % (i, c[1], m))
+                    elif c[0] == "isomass":
+                        m = self.data.mass((c[1], c[2], 0)) * c[3]
+                        iso_mass[(c[1], c[2])] = m
+                        T.symbol(c[1])[c[2]]._mass = m
+                        lines.append("T%d.%s[%d]._mass = %r" % (i, c[1], c[2], m))
+                    else:
+                        raise MachineryError("customisation %r" % (c,))
+                try:
+                    nsf.init(T)
+                except Exception as e:
+                    acc.violation("several-tables:raises:%s:private-table-init" % type(e).__name__,
+                                  dict(case, failing_step=step), "neutron data attached to the private table",
+                                  "%s: %s" % (type(e).__name__, e),
+                                  standalone="\n".join(lines + ["nsf.init(T%d)" % i]) + "\n")
+                    return False
+                lines.append("nsf.init(T%d)" % i)
+                data = self.data.customised(el_mass=el_mass, iso_mass=iso_mass, density=dens, divide_all_by=div)
+                private[i] = (T, len(views))
+                views.append(("private-%d" % i, self.view(T, data), set(), "T%d" % i))
+                after = "private-table-init"
+            elif ev[0] == "edit":
+                T, vi = private[ev[1]]
+                for sym, d, m in TT_EDIT:
+                    T.symbol(sym)._density = d
+                    T.symbol(sym)._mass = m
+                    views[vi][2].add(sym)
+                    lines.append("T%d.%s._density = %r; T%d.%s._mass = %r" % (ev[1], sym, d, ev[1], sym, m))
+                after = "private-table-edit"
+            else:
+                raise MachineryError("event %r" % (ev,))
+            for label, vk, skip, var in views:
+                if ev[0] == "init" and label == "private-%d" % ev[1]:
+                    which = "own-init"
+                elif ev[0] == "edit" and label == "private-%d" % ev[1]:
+                    which = "own-edit"
+                else:
+                    which = after
+                who = "public" if label == "public" else ("private" if which.startswith("own") else "other-private")
+                if not self._judge_view(vk, who, which, skip, var, lines, dict(case, failing_step=step, table=label),
+                                        plain=(step == 0 and ev[0] == "use")):
+                    return False
+                acc.outcome("tables: %s atoms judged after %s" % (who, which))
+        return True
+
+    def _judge_view(self, vk, who, which, skip, var, lines, case, plain=False):
+        """the direct-query clause for the atoms TT_ATOMS of one table; `vk` names the atoms in that table and holds
+        the reference data of that table."""
+        acc = self.acc
+        atoms = TT_ATOMS if self.tier == "quick" else TT_ATOMS + tuple(k for k in K if k[2] == 0 and k not in TT_ATOMS)
+        for key in atoms:
+            if key[0] in skip:
+                continue
+            frags = [(1, key)]
+            V = vk.hist_values(frags)
+            at = lib_atom(vk.pt, key)
+            asrc = var + atom_py(key)[2:]
+            cls = "table" if vk.table_atoms(frags) else "const"
+            calls = []
+            for route in ("direct", "direct_sld"):
+                meth = "scattering" if route == "direct" else "sld"
+                calls.append((route, ("atom",), [rn.ABS_WL], "scalar", (lambda m=meth: getattr(at.neutron, m)()),
+                              "%s.neutron.%s()" % (asrc, meth)))
+                for vec in (V[:1] if self.tier == "quick" else V):
+                    calls.append((route, ("atom",), vec, "vector",
+                                  (lambda m=meth, v=vec: getattr(at.neutron, m)(wavelength=np.array(v))),
+                                  "%s.neutron.%s(wavelength=np.array(%r))" % (asrc, meth, vec)))
+                    if self.tier == "quick":
+                        continue
+                    calls.append((route, ("atom",), vec[:1], "scalar",
+                                  (lambda m=meth, v=vec: getattr(at.neutron, m)(wavelength=v[0])),
+                                  "%s.neutron.%s(wavelength=%r)" % (asrc, meth, vec[0])))
+            vec = V[0]
+            calls.append(("compound", ("atom",), vec, "vector",
+                          (lambda v=vec: self.nsf.neutron_scattering(at, wavelength=np.array(v))),
+                          "nsf.neutron_scattering(%s, wavelength=np.array(%r))" % (asrc, vec)))
+            calls.append(("compound", ("atom",), vec[:1], "scalar",
+                          (lambda v=vec: self.nsf.neutron_scattering(at, density=at.density, wavelength=v[0])),
+                          "nsf.neutron_scattering(%s, density=%s.density, wavelength=%r)" % (asrc, asrc, vec[0])))
+            dref = vk.data.atom_density(key)
+            tkw = {} if who == "public" else {"table": vk.pt.elements}
+            if key in TT_STRING or self.tier != "quick":
+              calls.append(("compound", ("density", dref), vec[:1], "scalar",
+                            (lambda v=vec: self.nsf.neutron_scattering(atom_str(key), density=dref, wavelength=v[0], **tkw)),
+                            "nsf.neutron_scattering(%r, density=%r, wavelength=%r%s)"
+                            % (atom_str(key), dref, vec[0], "" if who == "public" else ", table=%s" % var)))
+            for route, dspec, wls, shape, call, src in calls:
+                acc.evaluations += 1
+                standalone = "\n".join(lines + ["print(%s)" % src]) + "\n"
+                where = "direct" if route.startswith("direct") else "compound"
+                try:
+                    with np.errstate(all="ignore"):
+                        got = call()
+                    fail = vk.judge(got, route, frags, dspec, wls, shape, "wl", count=False)
+                except MachineryError:
+                    raise
+                except Exception as e:
+                    fail = dict(sig="raises:%s:%s:%s" % (type(e).__name__, route, cls), expected="seven values",
+                                observed="%s: %s" % (type(e).__name__, e))
+                if fail is None:
+                    continue
+                sig = fail["sig"] if plain else "several-tables:%s-table-atom:%s:after-%s" % (who, where, which)
+                detail = dict(fail.get("detail") or {}, atom=list(key), call=src, plain_signature=fail["sig"])
+                acc.violation(sig, case, fail["expected"], fail["observed"], standalone=standalone, detail=detail)
+                return False
+        return True
+
     def diagnose_table(self, frags, w):
         """Attribute a failing case to its cause: if the per-atom scattering length that the library serves for a
         table-driven atom at this wavelength (public method Neutron.scattering_by_wavelength) is not the
@@ -844,6 +1046,35 @@ def history_compounds(tier):
     return singles + pairs, deep
 
 
+def table_histories():
+    """Every history over {first use of the public table, init of private table 1 / 2 with each kind of customisation,
+    edit of a private table after its init}: the public table used before or not before the first private table
+    exists; one or two private tables; an edit of table 1 before or after table 2 is initialised, or of table 2."""
+    out = []
+    kinds = list(CUSTOM)
+    for pre in ((), (("use",),)):
+        for k1 in kinds:
+            h1 = pre + (("init", 1, k1),)
+            out.append(h1)
+            out.append(h1 + (("edit", 1),))
+            for k2 in kinds:
+                h2 = h1 + (("init", 2, k2),)
+                out += [h2, h1 + (("edit", 1), ("init", 2, k2)), h2 + (("edit", 1),), h2 + (("edit", 2),)]
+    return out
+
+
+_TT_DATA = None
+
+
+def tables_shard(args):
+    """ONE history of tables, in a process of its own (forked before the public neutron data were ever touched)."""
+    events, tier = args
+    acc = Acc()
+    ck = Checker(acc, tier, data=_TT_DATA)
+    ck.tables_history(events)
+    return acc
+
+
 def do_nodata(ck, key):
     """A compound containing an atom without data gives (None, None, None) - alone and with every partner."""
     for form in ("list", "string"):
@@ -960,9 +1191,35 @@ def _balanced(items, weights, nshards):
     return [[items[i] for i in sorted(b[1])] for b in bins if b[1]]
 
 
+def run_tables(ctx, data):
+    """Histories of several tables: each in a forked process of its own; the parent has not touched the neutron data
+    of the public table yet (the first use of the public table is an event of the history)."""
+    global _TT_DATA
+    from .. import common
+    pt = load_pt()
+    if "neutron" in pt.elements.properties:
+        raise MachineryError("the neutron data of the public table were loaded before the table histories")
+    _TT_DATA = data
+    from periodictable import formulas, mass, density          # imported before the fork; none touches neutron data
+    # nothing beyond a broken state: the public table alone first
+    base = common.pmap(tables_shard, [((("use",),), ctx.tier)], ctx.jobs, "C03-tables", always_fork=True)[0]
+    ctx.acc.merge(base)
+    if base.viol:
+        ctx.acc.count("table_histories_not_explored_beyond_a_violation", len(table_histories()))
+        return
+    hists = table_histories()
+    for r in common.pmap(tables_shard, [(h, ctx.tier) for h in rotate(hists, ctx.seed)], ctx.jobs, "C03-tables",
+                         always_fork=True):
+        ctx.acc.merge(r)
+    ctx.acc.info["table_histories"] = len(hists) + 1
+    if "neutron" in pt.elements.properties:
+        raise MachineryError("a table history ran in the parent process")
+
+
 def run(ctx):
     pt = load_pt()
     data = rn.NeutronData()
+    run_tables(ctx, data)
     atoms = all_data_atoms(data)
     ions = ion_atoms(pt, data)
     # how the reader's idea of "has data" relates to the library's (reported, not judged here: C07)
@@ -1014,6 +1271,9 @@ def run(ctx):
 
 def replay(ctx, case, signature=None):
     ck = Checker(ctx.acc, "thorough")
+    if case.get("kind") == "tables":
+        ck.tables_history(case["events"])          # the replay process has not touched the public table yet
+        return
     frags = [(c, tuple(k)) for c, k in case["frags"]]
     if case.get("kind") == "history":
         ck.history(frags, case["form"], case["wkind"], case["hist"])
